@@ -18,7 +18,8 @@ SHARDS = {'quick': 16, 'thorough': 64}
 TIMEOUT = {'quick': 1200, 'thorough': 7200}
 MUST_HIT = ['Outcome.new', 'ShadowModel.compare', 'LinkMirror', 'Atomicity.rejected',
             'Outcome.RelateException', 'Outcome.UnrelateException',
-            'Outcome.UnknownLinkException', 'Outcome.DeleteException']
+            'Outcome.UnknownLinkException', 'Outcome.DeleteException', 'Schema.random',
+            'Schema.random-three-or-more-associations']
 MUST_REACH = ['xtuml/meta.py:relate', 'xtuml/meta.py:unrelate', 'xtuml/meta.py:_find_link',
               'xtuml/meta.py:Link.connect', 'xtuml/meta.py:Link.disconnect',
               'xtuml/meta.py:MetaClass.delete', 'xtuml/meta.py:Association.formalize']
@@ -32,7 +33,9 @@ RULE = ('exhaustive: for each association shape (simple with every src/tgt multi
         'phrase, unknown association, None argument, delete of up to three instances, creation of one more '
         'referring instance and its relate) on pools of '
         'two instances per class, oracle after the last call (every prefix is itself enumerated); '
-        'random: histories of 200-2000 calls on pools of 6-10 instances, mirror after every call, '
+        'random: histories of 200-2000 calls on pools of 6-10 instances, every third one over a random schema '
+        '(vf/sqlgen.random_schema: up to five associations of every shape incl. compound keys, key chains, shared '
+        'referential attributes, one-sided phrases, keyword-like names), mirror after every call, '
         'full comparison every 16 calls and at the end. Non-trivial = the history passes through '
         'at least two different link states or contains a rejected call; enumerated histories are '
         'distinct by construction, random ones by hash.')
@@ -354,7 +357,7 @@ def run(ctx):
     S = shapes()
     if ctx.params.get('replay'):
         case = ctx.params['replay']['case']
-        schema = dict(S)[case['shape']]
+        schema = Schema.from_json(case['schema']) if case.get('schema') else dict(S)[case['shape']]
         pool = [tuple(p) for p in case['pool']]
         hist = [tuple(op) for op in case['history']]
         try:
@@ -393,14 +396,28 @@ def run(ctx):
             ctx.sample(dict(shape=name, schema=schema.describe()['rops'],
                             history=[list(o) for o in (ops[0], ops[2], ops[-1], ops[0])]))
 
-    n = ctx.share(160 if ctx.tier == 'quick' else 4000)
+    n = ctx.share(240 if ctx.tier == 'quick' else 6000)
     rng = ctx.rng
     for i in range(n):
         name, schema = S[rng.randrange(len(S))]
         pool = make_pool(schema, rng.randint(3, 5))
+        case = {}
+        if i % 3 == 2:
+            # a random schema: several associations of every shape over up to five classes (compound keys,
+            # key chains, shared referential attributes, one-sided phrases, keyword-like names)
+            from vf import sqlgen
+            schema = sqlgen.random_schema(rng, hostile_names=(i % 4 < 2), max_classes=5)
+            while not schema.rops:
+                schema = sqlgen.random_schema(rng, hostile_names=(i % 4 < 2), max_classes=5)
+            name = 'random-schema'
+            pool = make_pool(schema, rng.randint(2, 4))
+            case['schema'] = schema.to_json()
+            ctx.hit('Schema.random')
+            if len(schema.rops) >= 3:
+                ctx.hit('Schema.random-three-or-more-associations')
         hist = random_history(rng, schema, pool, rng.randint(200, 600 if ctx.tier == 'quick' else 2000))
         route = 'loader' if i % 2 else 'api'
-        case = dict(shape=name, pool=pool, route=route, history=hist)
+        case.update(shape=name, pool=pool, route=route, history=hist)
         try:
             nt = run_history(ctx, schema, pool, route, hist, every=16)
             ctx.case(('rnd', name, route, hist), nt)
